@@ -19,7 +19,7 @@ func debugDump(p *Prog, what string) {
 	case what == "census":
 		var names []string
 		for fn := range p.FuncDecl {
-			names = append(names, funcFullName(fn))
+			names = append(names, funcFullName(fn)+"\t"+funcSigString(fn))
 		}
 		sort.Strings(names)
 		for _, n := range names {
